@@ -267,6 +267,20 @@ func Run(c *core.Ctx) {
 			nrep++
 		}
 	}
+	// one transformer value serving several patterns in turn (a handler option registered for two resources)
+	for _, order := range [][]string{{"lib.book.$id", "lib.archive.$id.info", "lib.book.$id"}, {"a.$id", "b.$id.c", "$id.z", "a.$id"}, {"lib.$id.$id", "lib.x.$id"}, {"lib.x", "lib.$id"}} {
+		tr := store.IDTransformer("id", nil)
+		for _, pat := range order {
+			for _, id := range []string{"42", "a"} {
+				var rid string
+				if pv := core.Catch(func() { rid = tr.IDToRID(id, nil, res.Pattern(pat)) }); pv != nil {
+					continue
+				}
+				recs = append(recs, rec{"op": "replace", "ps": pat, "p": core.Chars(pat), "m": [][]interface{}{{core.Chars("id"), core.Chars(id)}}, "ms": map[string]string{"id": id}, "got": core.Chars(rid)})
+				nrep++
+			}
+		}
+	}
 	// id -> rid -> id through IDTransformer and real routing
 	ids := core.AllStrings([]string{"a", "$", "-", "b", "{"}, 3)
 	ids = append(ids, "a.b", "*", ">", "a?", "x y", "42", "$id", "$$")
